@@ -302,6 +302,61 @@ Proof.
   destruct E as [E _]. intros f Hf x. rewrite <- !canon_In. rewrite (E f Hf). tauto.
 Qed.
 
+(* ---------- separation for root.-prefixed fields ---------- *)
+Fixpoint root_str (rfs : list str) (rs : span) : str :=
+  match rfs with
+  | [] => []
+  | f :: r => match sp_get f rs with
+              | Some v => render_root v ++ [COMMA] ++ root_str r rs
+              | None => root_str r rs
+              end
+  end.
+
+Lemma root_part_str rfs t rs : t_root t = Some rs -> fst (root_part rfs t) = root_str rfs rs.
+Proof.
+  intros Hr. unfold root_part. rewrite Hr.
+  induction rfs as [|f r IH]; cbn [fold_right root_str]; [reflexivity|].
+  destruct (sp_get f rs) as [v|]; [|exact IH]. cbn [fst]. f_equal. f_equal. exact IH.
+Qed.
+
+(* every root field present in the root span, its rendered value free of ',' *)
+Definition root_ok (rfs : list str) (rs : span) : Prop :=
+  forall f, In f rfs -> exists v, sp_get f rs = Some v /\ ~ In COMMA (render_root v).
+
+Lemma root_unique rs rs' rfs : forall Y Y',
+  root_ok rfs rs -> root_ok rfs rs' ->
+  root_str rfs rs ++ Y = root_str rfs rs' ++ Y' ->
+  (forall f, In f rfs -> option_map render_root (sp_get f rs) = option_map render_root (sp_get f rs')) /\ Y = Y'.
+Proof.
+  induction rfs as [|f r IH]; intros Y Y' H H' E; cbn [root_str] in E.
+  - split; [intros f []|exact E].
+  - destruct (H f (or_introl eq_refl)) as [v [Hv Hc]]. destruct (H' f (or_introl eq_refl)) as [v' [Hv' Hc']].
+    rewrite Hv, Hv' in E. rewrite <- !app_assoc in E. cbn [app] in E.
+    destruct (split_unique COMMA _ _ _ _ Hc Hc' E) as [Ev E2].
+    destruct (IH Y Y') as [IH1 IH2].
+    + intros g Hg. apply H. right. exact Hg.
+    + intros g Hg. apply H'. right. exact Hg.
+    + exact E2.
+    + split; [|exact IH2]. intros g [<-|Hg]; [rewrite Hv, Hv'; cbn [option_map]; rewrite Ev; reflexivity|apply IH1; exact Hg].
+Qed.
+
+(* equal keys force equal root values as well (all root fields present in both root spans,
+   values free of ','), whatever UseTraceLength is on each side *)
+Theorem build_separates_root fields uselen uselen' t t' rs rs' :
+  let nf := fst (prepare fields) in let rf := snd (prepare fields) in
+  (total_distinct nf t < MAXK)%N -> (total_distinct nf t' < MAXK)%N ->
+  all_present nf t -> all_present nf t' -> all_dfree nf t -> all_dfree nf t' ->
+  t_root t = Some rs -> t_root t' = Some rs' -> root_ok rf rs -> root_ok rf rs' ->
+  fst (build_gen None fields uselen t) = fst (build_gen None fields uselen' t') ->
+  forall f, In f rf -> option_map render_root (sp_get f rs) = option_map render_root (sp_get f rs').
+Proof.
+  intros nf rf C C' P P' D D' R R' K K' E.
+  rewrite !build_gen_nocap in E by assumption. fold nf rf in E. cbv zeta in E. cbn [fst] in E.
+  apply blocks_unique in E; try assumption. destruct E as [_ E].
+  rewrite (root_part_str rf t rs R), (root_part_str rf t' rs' R') in E.
+  apply root_unique in E; try assumption. apply E.
+Qed.
+
 (* the source has the fix: build = build_gen None *)
 Lemma init_prev_fixed : GenC11.first_value_always_written = true -> init_prev = None.
 Proof. unfold init_prev. intros ->. reflexivity. Qed.
@@ -381,3 +436,13 @@ Proof.
   intros nf C C' P P' D D' Hf Hx Hnx E.
   apply Hnx. eapply (build_separates_fixed fields uselen uselen t t'); eassumption.
 Qed.
+
+Theorem build_separates_root_fixed fields uselen uselen' t t' rs rs' :
+  let nf := fst (prepare fields) in let rf := snd (prepare fields) in
+  (total_distinct nf t < MAXK)%N -> (total_distinct nf t' < MAXK)%N ->
+  all_present nf t -> all_present nf t' -> all_dfree nf t -> all_dfree nf t' ->
+  t_root t = Some rs -> t_root t' = Some rs' -> root_ok rf rs -> root_ok rf rs' ->
+  fst (build fields uselen t) = fst (build fields uselen' t') ->
+  forall f, In f rf -> option_map render_root (sp_get f rs) = option_map render_root (sp_get f rs').
+Proof. unfold build. rewrite (init_prev_fixed eq_refl). apply build_separates_root. Qed.
+
